@@ -44,6 +44,9 @@ def sample_terms(check: Check, cname: str):
 
 def run(check: Check) -> None:
     p = check.program
+    from . import wiring
+
+    wiring.p7_aggregated_membership(check)  # Aggregated.membership (anchor of this property): every activated term is folded in, for any S-norm
     infos = {}
     for cname in CLASSES:
         fn, r, cfg, ret = sample_terms(check, cname)
